@@ -360,11 +360,12 @@ Section Poly.
     (oabs O (vx a - vx b) <=? tol) && (oabs O (vy a - vy b) <=? tol).
 
   (* `cur :: rest` continues the chain of pieces of the segment (a,b); the start of `cur` has been
-     checked, t0 = (start - a).(b - a).  Joints are compared exactly; the two original vertices
-     within `tol` (Snap may move a vertex that is within 1e-9 of a split line onto it). *)
+     checked, t0 = (start - a).(b - a).  Joints and the two original vertices are compared exactly
+     (lineClip keeps end points as they are and both neighbours compute the same cut point); `tol`
+     is the slack for "the joint lies on the segment". *)
   Fixpoint chain_rest (tol : T) (a b : V2) (cur : Seg) (t0 : T) (rest : list Seg) : bool :=
     match rest with
-    | [] => v2close tol (snd cur) b
+    | [] => v2eqb (snd cur) b
     | nxt :: rest' =>
         let v := v2sub b a in
         let c := snd cur in
@@ -375,7 +376,7 @@ Section Poly.
   Definition chain_check (tol : T) (l : Seg) (pcs : list Seg) : bool :=
     match pcs with
     | [] => false
-    | pc :: rest => v2close tol (fst pc) (fst l) && chain_rest tol (fst l) (snd l) pc (o0 O) rest
+    | pc :: rest => v2eqb (fst pc) (fst l) && chain_rest tol (fst l) (snd l) pc (o0 O) rest
     end.
 
   Fixpoint forall2b {A B : Type} (f : A -> B -> bool) (l : list A) (m : list B) : bool :=
